@@ -217,9 +217,15 @@ class OpenDocument:
         self.element_dict[elt.qname].append(elt)
         if elt.qname == (STYLENS, u'style'):
             self.__register_stylename(elt) # Add to style dictionary
-        styleref = elt.getAttrNS(TEXTNS,u'style-name')
-        if styleref is not None and styleref in self._styles_ooo_fix:
-            elt.setAttrNS(TEXTNS,u'style-name', self._styles_ooo_fix[styleref])
+        if self._styles_ooo_fix:
+            # a style was renamed: from here on all references to the old
+            # name refer to the new one, whatever attribute they are made with
+            for qname in list(elt.attributes.keys()):
+                if qname in _STYLE_REFERENCE_ATTRIBUTES:
+                    names = unicode(elt.attributes[qname]).split()
+                    if [ n for n in names if n in self._styles_ooo_fix ]:
+                        elt.attributes[qname] = \
+                            u' '.join([ self._styles_ooo_fix.get(n, n) for n in names ])
 
     def remove_from_caches(self, elt):
         """
